@@ -280,7 +280,7 @@ theorem foldl_addOp_ungradeL (sl : List String) (ops : List Op) (l : Lists) :
   | cons o rest ih => simp only [List.foldl_cons]; rw [addOp_ungradeL, ih]
 
 theorem assemble_ungrade (m : Mesh) : assemble (ungrade m) = ungrade (assemble m) := by
-  simp only [assemble, ungrade, slavePatches, assembleLoop_eq_foldl, foldl_addOp_ungradeL]
+  simp only [assemble_flat, ungrade, slavePatches, assembleLoop_eq_foldl, foldl_addOp_ungradeL]
 
 theorem isAssembled_ungrade (m : Mesh) : isAssembled (ungrade m) = isAssembled m := rfl
 
@@ -301,7 +301,7 @@ theorem RT_lists (m : Mesh) :
     (RT m).lists =
       { (liveOps m).foldl (addOp (slavePatches m)) {} with
         patches := addItems (clearPatches m.lists.patches) (allItems (slavePatches m) (liveOps m) []) } := by
-  simp only [RT, assemble, clear, slavePatches, assembleLoop_eq_foldl]
+  simp only [RT, assemble_flat, clear, slavePatches, assembleLoop_eq_foldl]
   have := foldl_addOp_patches (m.merged.map (·.2)) (liveOps m) ({} : Lists) (clearPatches m.lists.patches)
   exact this
 
